@@ -234,7 +234,12 @@ class ExpressionParser:
             expected = self.check(_FIRST_EXP)
             right = None
             if expected:
-                right = self.parse_mult()
+                if opType == TOKEN_TYPES.Divide:
+                    # Division is not associative: "a / b / c" is "(a / b) / c" and
+                    # "a / b * c" is "(a / b) * c", so only the next operand is the divisor.
+                    right = self.parse_exponent()
+                else:
+                    right = self.parse_mult()
 
             if not expected or right is None:
                 assert self._all_tokens is not None
